@@ -6,6 +6,7 @@ mod capacity;
 mod conc;
 mod dump;
 mod hooks;
+mod panic_check;
 mod seq;
 mod types;
 
@@ -263,6 +264,21 @@ fn cmd_bulk(args: &[String]) {
     );
 }
 
+fn cmd_panic(args: &[String]) {
+    // panic <seed> <n>
+    silence_panics();
+    hooks::install();
+    let r = panic_check::run(args[0].parse().unwrap(), args[1].parse().unwrap());
+    for f in r.failures.iter().take(5) {
+        println!("FOUND C18 {}", f);
+    }
+    println!(
+        "JSON {}",
+        json!({"injections": r.injections, "failures": r.failures.len(), "in_tree_bins": r.in_tree_bins,
+               "in_list_bins": r.in_list_bins, "retain_injections": r.retain_injections, "samples": r.samples})
+    );
+}
+
 fn main() {
     let args: Vec<String> = std::env::args().collect();
     if args.len() < 2 {
@@ -272,6 +288,7 @@ fn main() {
     match args[1].as_str() {
         "api" => cmd_api(&args[2..]),
         "seq" => cmd_seq(&args[2..]),
+        "panic" => cmd_panic(&args[2..]),
         "bulk" => cmd_bulk(&args[2..]),
         "capacity" => cmd_capacity(&args[2..]),
         "conc" => cmd_conc(&args[2..]),
